@@ -20,10 +20,19 @@ type Bounds struct {
 	MaxInv     int
 	MaxFaults  int
 	FaultKinds []string
+	// NoView: do not merge states (no VIEW): TLC then walks the tree of all histories, so every
+	// history - not one per merged state and operation - is printed and replayed. For tiny
+	// catalogs only: defects that live in implementation state the abstraction merges away
+	// (graph positions, leftovers of a rollback) may need one particular path.
+	NoView bool
 }
 
 func (b Bounds) String() string {
-	return fmt.Sprintf("MaxInv=%d MaxFaults=%d FaultKinds=%v", b.MaxInv, b.MaxFaults, b.FaultKinds)
+	s := fmt.Sprintf("MaxInv=%d MaxFaults=%d FaultKinds=%v", b.MaxInv, b.MaxFaults, b.FaultKinds)
+	if b.NoView {
+		s += " all-paths(no VIEW)"
+	}
+	return s
 }
 
 var allInvariants = []string{"TypeOK", "C01_Provenance", "C08_Visible", "C08_OwnView", "C08_HomeCommit",
@@ -106,8 +115,8 @@ func coverStage(name string, cats []*cat.Catalog, b Bounds, timeout time.Duratio
 		return nil, err
 	}
 	mod := "---- MODULE MCGen ----\nEXTENDS DigGen\n====\n"
-	cfg := fmt.Sprintf("SPECIFICATION GenSpec\nCONSTANTS\n  MaxInv = %d\n  MaxFaults = %d\n  FaultKinds = %s\nINVARIANTS %s\nPROPERTIES %s\nVIEW GenView\nCHECK_DEADLOCK FALSE\n",
-		b.MaxInv, b.MaxFaults, tlaStrSet(b.FaultKinds), strings.Join(allInvariants, " "), strings.Join(allActionProps, " "))
+	cfg := fmt.Sprintf("SPECIFICATION GenSpec\nCONSTANTS\n  MaxInv = %d\n  MaxFaults = %d\n  FaultKinds = %s\n  FreeOrder = FALSE\nINVARIANTS %s\nPROPERTIES %s\n%sCHECK_DEADLOCK FALSE\n",
+		b.MaxInv, b.MaxFaults, tlaStrSet(b.FaultKinds), strings.Join(allInvariants, " "), strings.Join(allActionProps, " "), map[bool]string{false: "VIEW GenView\n", true: ""}[b.NoView])
 	os.WriteFile(filepath.Join(dir, "MCGen.tla"), []byte(mod), 0o644)
 	os.WriteFile(filepath.Join(dir, "MCGen.cfg"), []byte(cfg), 0o644)
 
